@@ -150,8 +150,8 @@ func c18FailedReload(c *vlib.Ctx) {
 	}
 	for oi, old := range c18Configs {
 		for ni, next := range c18Configs {
-			if oi == ni && !c.Thorough() {
-				continue
+			if oi == ni && !c.Thorough() && oi != 2 {
+				continue // (2 -> 2 keeps the HMAC route in the candidate: its authenticator is rebuilt before the failure)
 			}
 			if !c.Thorough() && (oi+ni)%2 == 1 {
 				continue
@@ -163,9 +163,26 @@ func c18FailedReload(c *vlib.Ctx) {
 					return
 				}
 				before := c18Fingerprint(a)
+				// replay protection is part of "authentication ... exactly as before": a signed
+				// request honoured before the failed reload is still a replay after it
+				var captured func() *http.Request
+				if strings.Contains(old, "auth hmac raw:k1") {
+					ts, body := time.Now().Unix(), []byte("captured")
+					captured = func() *http.Request { return signedReq("k1", "/a", ts, "cap-nonce", body) }
+					if st := l2.Do(a.Ingress, captured()).Status; st != 202 {
+						captured = nil
+					}
+				}
 				undo := f.apply(a, next)
 				ok := a.Reload()
 				after := c18Fingerprint(a)
+				if captured != nil {
+					c.Count("captured_requests_replayed_after_failed_reload", 1)
+					if st := l2.Do(a.Ingress, captured()).Status; st != 401 && !ok {
+						c.Violation(vlib.Signature{"class": "behaviour_changed_by_failed_reload", "failure": f.name, "probe": "replay of a request honoured before the reload"},
+							fmt.Sprintf("after a failed reload (%s) the signed request honoured before it is answered %d instead of 401: the replay state of the running authenticator changed", f.name, st), map[string]any{"old": old, "candidate": next})
+					}
+				}
 				c.Count("evaluations", 1)
 				c.Count("failed_reload_trials", 1)
 				if c.Counter("failed_reload_trials") <= 2 {
